@@ -42,12 +42,39 @@ def check(ctx, rule_id=RULE):
              'ordering or substring test is applied to path suffix strings '
              '(component-wise comparison only)')
     n_funcs = 0
+    # parameters that receive a raw suffix string at some call site
+    # (`self.__relsuffix(self.suffix, start.suffix)`)
+    from ..facts import Facts
+    F = getattr(ctx, '_facts', None)
+    if F is None:
+        F = ctx._facts = Facts(repo)
+    suffix_params = {}
+    for fi in repo.functions.values():
+        for c in walk_no_nested(fi.node):
+            if not isinstance(c, ast.Call) or not any(
+                    isinstance(a, ast.Attribute) and a.attr == 'suffix'
+                    for a in c.args):
+                continue
+            try:
+                callee = F.flow.resolve_call(c, fi)
+            except Exception:
+                callee = None
+            if callee is None:
+                continue
+            ps = Q.params(callee.node)
+            off = 1 if ps and ps[0] in ('self', 'cls') and isinstance(
+                c.func, ast.Attribute) else 0
+            for i, a in enumerate(c.args):
+                if isinstance(a, ast.Attribute) and a.attr == 'suffix' and \
+                        i + off < len(ps):
+                    suffix_params.setdefault(callee.fq, set()).add(
+                        ps[i + off])
     for fi in sorted(repo.functions.values(), key=lambda f: f.fq):
         if fi.module.name.startswith(('bfg9000.e1m1',)):
             continue
         n_funcs += 1
         # locals that hold a suffix string
-        sl = set()
+        sl = set(suffix_params.get(fi.fq, ()))
         for n in walk_no_nested(fi.node):
             if isinstance(n, ast.Assign) and len(n.targets) == 1 and \
                     isinstance(n.targets[0], ast.Name):
